@@ -180,9 +180,13 @@ class TapeRecorder(object):
         :param data: Data to record (it needs to be serializable)
         :type data: Any
         """
-        self._assert_recording()
-        _logger.debug(u'Recording data for recording id {} under key {}'.format(self._active_recording.id, key))
-        self._active_recording[key] = data
+        # Read the shared state once, the recording may be discarded concurrently (e.g. from within the intercepted
+        # function or from another thread), in such case there is nothing to record
+        recording = self._active_recording
+        if recording is None:
+            return
+        _logger.debug(u'Recording data for recording id {} under key {}'.format(recording.id, key))
+        recording[key] = data
 
     def _assert_recording(self):
         """
@@ -858,7 +862,9 @@ class TapeRecorder(object):
                 self.discard_recording()
                 return result
 
-            if self._active_recording_parameters.copy_data_on_intercepion:
+            # Recording may have been discarded while the intercepted function was running
+            recording_parameters = self._active_recording_parameters
+            if recording_parameters is not None and recording_parameters.copy_data_on_intercepion:
                 try:
                     recorded_result = pickle_copy(recorded_result)
                 except Exception as ex:
